@@ -67,7 +67,7 @@ theorem producer_alive {s : St} (h : Reachable s) (hp : s.producers > 0) :
 theorem read_error_detected {s : St} (h : Reachable s) (hcl : isDone s.closing = false)
     (hp : s.producers > 0) (hr : isReading s.pphase = true) : Detected s (step s .readFault).1 := by
   obtain ⟨hc, h1, hl⟩ := producer_alive h hp
-  simp [step, hcl, hp, hr, prodFault, Detected, h1, hl, hc]
+  simp [step, stepDone, stepLive, hcl, hp, hr, prodFault, Detected, h1, hl, hc]
 
 /-- no data within the read timeout (the timer of the read in progress fires) -/
 theorem read_timeout_detected {s : St} (h : Reachable s) (hcl : isDone s.closing = false)
@@ -75,7 +75,7 @@ theorem read_timeout_detected {s : St} (h : Reachable s) (hcl : isDone s.closing
     Detected s (step s (.tick .readTO)).1 := by
   obtain ⟨hc, h1, hl⟩ := producer_alive h hp
   have : ¬ s.now < dl := by omega
-  simp [step, hcl, fire, deadline?, hp, hr, this, prodFault, Detected, h1, hl, hc]
+  simp [step, stepDone, stepLive, hcl, fire, deadline?, hp, hr, this, prodFault, Detected, h1, hl, hc]
 
 /-- the write of a queued frame does not complete within the write timeout -/
 theorem write_timeout_detected {s : St} (h : Reachable s) (hcl : isDone s.closing = false)
@@ -85,7 +85,7 @@ theorem write_timeout_detected {s : St} (h : Reachable s) (hcl : isDone s.closin
   have : ¬ s.now < dl := by omega
   have hl' := same_latch (prodFault s).1
   have e : (step s (.tick .writeTO)).1 = latch (prodFault s).1 := by
-    simp [step, hcl, fire, deadline?, hp, hr, this]
+    simp [step, stepDone, stepLive, hcl, fire, deadline?, hp, hr, this]
   rw [e]
   refine ⟨h1, hl, ?_, ?_, ?_⟩
   · rw [hl'.producers]; simp [prodFault, h1]
@@ -105,7 +105,7 @@ theorem write_error_detected {s : St} (h : Reachable s) (hcl : isDone s.closing 
   have hfr : ∀ x : St, x = (step s (.feed f)).1 →
       x.producers = (prodIO s).1.producers ∧ x.lostPending = (prodIO s).1.lostPending ∧ x.connected = (prodIO s).1.connected := by
     intro x hx
-    have e : (step s (.feed f)).1 = (feed s f).1 := by simp [step, hcl]
+    have e : (step s (.feed f)).1 = (feed s f).1 := by simp [step, stepDone, stepLive, hcl]
     rw [hx, e]
     simp only [feed, h1, hr]
     simp only [Nat.succ_ne_self, Bool.not_true, Bool.false_eq_true, or_self, ↓reduceIte]
@@ -142,7 +142,7 @@ theorem loss_announced_once {s : St} (h : Reachable s) (hcl : early s.closing = 
     induction published s with
     | nil => rfl
     | cons d ds ih => simp [List.filter_cons, isAnnFalse, ih]
-  simp only [step, hnd, lostRun, hl, hc]
+  simp only [step, stepDone, stepLive, hnd, lostRun, hl, hc]
   simp only [Bool.false_eq_true, ↓reduceIte, Bool.not_true]
   split
   · rename_i hemp
@@ -180,7 +180,7 @@ theorem loss_closes_and_reconnects_once {s : St} (h : Reachable s) (hcl : early 
     Option.isSome_iff_exists.mp (h.winv hcl (Or.inr hm)).1
   obtain ⟨c1, _, c3, c4⟩ := lostFinish_counts { s with lostMid := false } tid htid
   refine ⟨tid, htid, ?_⟩
-  simp only [step, hnd, lostRun2, hm]
+  simp only [step, stepDone, stepLive, hnd, lostRun2, hm]
   simp only [Bool.false_eq_true, ↓reduceIte, Bool.not_true]
   exact ⟨c1, c4, c3, (samep_lostFinish _).lostMid⟩
 
@@ -190,7 +190,7 @@ theorem reconnect_after_close_timeout {s : St} (hnd : isDone s.closing = false) 
     nOpen (step s (.tick .wcloseTO)).2 = (if s.rcOn then 1 else 0) ∧ nWclose (step s (.tick .wcloseTO)).2 = 0 := by
   have : ¬ s.now < dl := by omega
   have rc := reconnectInvoke_counts { s with recon := .idle, writer := none }
-  simp only [step, hnd, fire, deadline?, hr, this]
+  simp only [step, stepDone, stepLive, hnd, fire, deadline?, hr, this]
   exact ⟨rc.1, rc.2.2.1⟩
 
 /-! ### exactly one close per loss, over whole histories -/
@@ -274,12 +274,12 @@ theorem open_timeout_backs_off (s : St) (hnd : isDone s.closing = false) (dl : N
     (step s (.tick .openTO)).1.recon = .backoff (s.now + reconnectTO) o := by
   have h1 : ¬ s.now < dl := by omega
   have h2 : ¬ (o = .user ∧ (!s.rcOn) = true) := by simpa using ho
-  simp [step, hnd, fire, deadline?, hr, h1, openFailed, ho]
+  simp [step, stepDone, stepLive, hnd, fire, deadline?, hr, h1, openFailed, ho]
 
 /-- no retry before the back-off interval has elapsed ... -/
 theorem no_retry_during_backoff (s : St) (dl : Nat) (o : Owner) (hr : s.recon = .backoff dl o) (hearly : s.now < dl) :
     step s (.tick .backoffEnd) = (s, []) := by
-  unfold step
+  unfold step stepDone stepLive
   split
   · rfl
   · simp [fire, deadline?, hr, hearly]
@@ -292,14 +292,14 @@ theorem backoff_end_retries (s : St) (hnd : isDone s.closing = false) (dl : Nat)
     nOpen (step s (.tick .backoffEnd)).2 = 1 := by
   have h1 : ¬ s.now < dl := by omega
   have e : step s (.tick .backoffEnd) = doOpen { s with recon := .idle } .conn := by
-    simp [step, hnd, fire, deadline?, hr, h1]
+    simp [step, stepDone, stepLive, hnd, fire, deadline?, hr, h1]
   exact ⟨e, by rw [e]; exact (doOpen_counts _ _).1⟩
 
 /-- the clock cannot run past a pending back-off deadline: `advance` refuses to skip it -/
 theorem clock_waits_for_backoff (s : St) (hnd : isDone s.closing = false) (dl : Nat) (o : Owner)
     (hr : s.recon = .backoff dl o) (dt : Nat) :
     (step s (.advance dt)).1.now = s.now ∨ (step s (.advance dt)).1.now ≤ dl := by
-  simp only [step, hnd, Bool.false_eq_true, ↓reduceIte]
+  simp only [step, stepDone, stepLive, hnd, Bool.false_eq_true, ↓reduceIte]
   split
   · rename_i hall
     right
@@ -346,7 +346,7 @@ was left over from before, that is the start-master request -/
 theorem start_master_sent_first (s : St) (hnd : isDone s.closing = false) (hp : s.producers > 0)
     (hph : s.pphase = .starting) (tid : Nat) (hw : s.writer = some tid) (hq : s.writeQ = [25]) :
     (step s .prodStart).2.head? = some (.tx tid 25) := by
-  have e : (step s .prodStart) = prodIO s := by simp [step, hnd, hp, hph]
+  have e : (step s .prodStart) = prodIO s := by simp [step, stepDone, stepLive, hnd, hp, hph]
   rw [e]
   simp only [prodIO, prodIO', hq, hw]
   split <;> rfl
@@ -380,7 +380,7 @@ theorem sending_feed {s : St} {tid : Nat} (h : Sending s tid) (k : Nat) (rest : 
   have hio : prodIO' s = ({ s with writeQ := rest, pphase := .reading (s.now + readerTO) }, [.tx tid k]) := by
     simp [prodIO', hq, h.writer, h.drain]
   have e : step s (.feed .foreign) = (latch { s with writeQ := rest, pphase := .reading (s.now + readerTO) }, [.tx tid k]) := by
-    simp [step, h.notDone, feed, hp0, h.reading, prodIO, hio, Feed.addr?]
+    simp [step, stepDone, stepLive, h.notDone, feed, hp0, h.reading, prodIO, hio, Feed.addr?]
   rw [e]
   have hl := same_latch { s with writeQ := rest, pphase := .reading (s.now + readerTO) }
   have hfield : ∀ x : St, (latch x).writeQ = x.writeQ ∧ (latch x).pphase = x.pphase ∧ (latch x).wdrain = x.wdrain ∧
@@ -430,7 +430,7 @@ theorem start_master_sent_after_k_frames (s : St) (tid : Nat) (q : List Nat) (hn
   have hio : prodIO' s = ({ s with writeQ := rest, pphase := .reading (s.now + readerTO) }, [.tx tid k]) := by
     simp [prodIO', hq', hw, hd]
   have e : step s .prodStart = (latch { s with writeQ := rest, pphase := .reading (s.now + readerTO) }, [.tx tid k]) := by
-    simp [step, hnd, hp, hph, prodIO, hio]
+    simp [step, stepDone, stepLive, hnd, hp, hph, prodIO, hio]
   have hfield : ∀ x : St, (latch x).writeQ = x.writeQ ∧ (latch x).pphase = x.pphase ∧ (latch x).wdrain = x.wdrain ∧
       (latch x).writer = x.writer ∧ (isDone x.closing = false → isDone (latch x).closing = false) := by
     intro x; unfold latch; split
@@ -635,7 +635,7 @@ theorem retry_until_success_hung (dm cm : Mode) (rest : List OpenRes) :
     have hstep : (step b (.tick .openTO)) = (openFailed { b with recon := .idle } .conn) := by
       have h1 : ¬ b.now < dl + connectTO := by rw [hbn]; omega
       have hbd : isDone b.closing = false := hand
-      simp [step, hbd, fire, deadline?, hbr, h1]
+      simp [step, stepDone, stepLive, hbd, fire, deadline?, hbr, h1]
     have hcf : c = (openFailed { b with recon := .idle } .conn).1 := by show (step b (.tick .openTO)).1 = _; rw [hstep]
     have hof : ∀ x : St, (openFailed x .conn).1.now = x.now ∧ (openFailed x .conn).1.closing = x.closing ∧
         (openFailed x .conn).1.devices = x.devices ∧ (openFailed x .conn).1.script = x.script ∧
@@ -726,9 +726,9 @@ theorem rcOn_run (s : St) (es : List Ev) : (run s es).1.rcOn = s.rcOn := by
   have one : ∀ (t : St) (e : Ev), (step t e).1.rcOn = t.rcOn := by
     intro t e
     have hfr : ∀ x y : St, Frames x y → y.rcOn = x.rcOn := fun _ _ f => f.rcOn
-    unfold step
+    unfold step stepDone stepLive
     split
-    · split <;> rfl
+    · split <;> first | rfl | (unfold reopenEv; split <;> rfl)
     · have hdo : ∀ (x : St) (o : Owner), (doOpen x o).1.rcOn = x.rcOn := by
         intro x o
         have hp : (popScript x).2.rcOn = x.rcOn := by unfold popScript; split <;> rfl
@@ -802,7 +802,7 @@ theorem rcOn_run (s : St) (es : List Ev) : (run s es).1.rcOn = s.rcOn := by
               · split
                 · split <;> rfl
                 · rfl
-            | cwcloseTO => simp only []; split <;> rfl
+            | cwcloseTO => simp only []; split <;> first | rfl | (rw [finishClose_fst])
       | prodStart => simp only []; split <;> first | rfl | exact hpi t
       | lostRun =>
         simp only [lostRun]
@@ -823,9 +823,11 @@ theorem rcOn_run (s : St) (es : List Ev) : (run s es).1.rcOn = s.rcOn := by
         split
         · split
           · simp only [shutdownTail, closeWriter_fst'']
-            split <;> rfl
+            split <;> first | rfl | (rw [finishClose_fst]; rfl)
           · rfl
         · rfl
+      | reopen => rfl
+      | versionsGo => show (versionsGo t).1.rcOn = _; unfold versionsGo; split <;> rfl
       | setupGo => show (setupGo t).1.rcOn = _; unfold setupGo; split <;> rfl
       | gate a => exact hfr _ _ (frames_gateEv t a)
       | release => exact hfr _ _ (frames_release t)
@@ -933,7 +935,9 @@ theorem frames_delivered_at_rest {s : St} (h : Reachable s) (hc : s.connected = 
             · cases hq
             · split at hq
               · cases hq
-              · simp at hq
+              · split at hq
+                · cases hq
+                · simp at hq
   refine ⟨hrq, ?_⟩
   rw [read_balance h, hrq, hh]; rfl
 
@@ -1019,5 +1023,61 @@ example :
       .feed (.orphan 0), .take, .feed (.pw 69), .take]
     r.1.consumers = 3 ∧ r.1.rUnf = 0 ∧ addrs r.1 = [69] ∧ nPut 69 0 (outs r) = 2 ∧ nDel 69 0 (outs r) = 2 ∧
     nDel 86 0 (outs r) = 1 ∧ nDel 69 186 (outs r) = 1 := by decide
+
+/-! ### the connection object used again (close(), then connect() on the same object) -/
+
+/-- the default of `AsyncProtocol(consumers_count=...)` (translator) is the statement's three consumers -/
+theorem consumers_default_eq : Gen.consumersCountDefault = 3 := by decide
+
+/-- **`reopen`**: on a connection whose close() has returned and which is down, the finished call is forgotten and
+nothing else changes: producers, consumers, devices, queues, script, clock are the object's state as close() left it -/
+theorem reopen_forgets_close {s : St} (hd : isDone s.closing = true) (hc : s.connected = false) (hm : s.lostMid = false)
+    (hr : s.recon = .idle) : (step s .reopen).1 = { s with closing := .no, rj := false } ∧ (step s .reopen).2 = [] := by
+  simp [step, stepDone, hd, reopenEv, hc, hm, hr]
+
+/-- the session after a reopen is a reachable state with close() not called: EVERY theorem of this file that speaks
+about reachable states (detection, `loss_announced_once`, `one_close_per_loss`, `retry_until_success`, `reestablished`,
+`tasks_bounded`, `consumers_topped_up`, `frames_reach_same_device` ...) holds in it, for every history that follows -/
+theorem session_after_reopen {s : St} (h : Reachable s) (hd : isDone s.closing = true) (hc : s.connected = false)
+    (hm : s.lostMid = false) (hr : s.recon = .idle) :
+    Reachable (step s .reopen).1 ∧ (step s .reopen).1.closing = .no ∧ (step s .reopen).1.rcOn = s.rcOn ∧
+    addrs (step s .reopen).1 = addrs s := by
+  have hre : Reachable (step s .reopen).1 := by have := h.run [.reopen]; simpa [run] using this
+  rw [(reopen_forgets_close hd hc hm hr).1] at hre ⊢
+  exact ⟨hre, rfl, rfl, rfl⟩
+
+/-- **one reconnect per loss, in every later session**: after a reopen, along any run without a further close(), the
+first attempts made by the loss handling equal the transports closed (as `one_reconnect_per_loss` in the first session) -/
+theorem one_reconnect_per_loss_after_reopen {s : St} (h : Reachable s) (hd : isDone s.closing = true)
+    (hc : s.connected = false) (hm : s.lostMid = false) (hr : s.recon = .idle) (hrc : s.rcOn = true)
+    (es : List Ev) (hne : Ev.close ∉ es) :
+    nInvoke (step s .reopen).1 es + pendW (run (step s .reopen).1 es).1 =
+      nWclose (outs (run (step s .reopen).1 es)) + pendW (step s .reopen).1 := by
+  obtain ⟨h1, h2, h3, _⟩ := session_after_reopen h hd hc hm hr
+  exact one_reconnect_per_loss h1 h2 (by rw [h3]; exact hrc) es hne
+
+/-- ... and exactly one transport close per loss -/
+theorem one_close_per_loss_after_reopen {s : St} (h : Reachable s) (hd : isDone s.closing = true)
+    (hc : s.connected = false) (hm : s.lostMid = false) (hr : s.recon = .idle) (es : List Ev) (hne : Ev.close ∉ es) :
+    nFault (outs (run (step s .reopen).1 es)) + pend (step s .reopen).1 =
+      nWclose (outs (run (step s .reopen).1 es)) + pend (run (step s .reopen).1 es).1 := by
+  obtain ⟨h1, h2, _, _⟩ := session_after_reopen h hd hc hm hr
+  exact (one_close_per_loss h1 h2 es hne).1
+
+/-- non-vacuity: first session with a device, close() (returns at once), the object used again, connect(), a frame for
+the same device, the stream breaks, the first attempt fails, the retry after RECONNECT_TIMEOUT succeeds -/
+def exReopenEvs : List Ev :=
+  [.connect, .prodStart, .feed (.pw 69), .take, .close, .shutdownRun]
+
+def exClosed : St := (run (init 3 true [.ok .ok .ok, .ok .ok .ok, .err, .ok .ok .ok]) exReopenEvs).1
+
+example : Reachable exClosed := ⟨3, true, _, exReopenEvs, rfl⟩
+example : isDone exClosed.closing = true ∧ exClosed.connected = false ∧ exClosed.lostMid = false ∧ exClosed.recon = .idle ∧
+    tasks exClosed = 0 ∧ addrs exClosed = [69] := by decide
+example :
+    let r := run exClosed [.reopen, .connect, .prodStart, .feed (.pw 69), .take, .readFault, .lostRun, .lostRun2,
+      .advance 20000, .tick .backoffEnd, .prodStart, .feed (.pw 69), .take]
+    nFault (outs r) = 1 ∧ nWclose (outs r) = 1 ∧ nOpen (outs r) = 3 ∧ r.1.connected = true ∧ addrs r.1 = [69] ∧
+    r.1.producers = 1 ∧ r.1.consumers = 3 ∧ nDel 69 186 (outs r) = 2 ∧ tasks r.1 = 1 + 3 + deviceTasks r.1 := by decide
 
 end PlumVerif.C11
